@@ -155,3 +155,48 @@ func joinText(s string, b []byte) string {
 	}
 	return s
 }
+
+// emptySliceVariants returns t rebuilt with the New*Flat constructors so that every zero-length
+// component (coordinates, ends, the ends of a polygon without rings) is a non-nil empty slice, plus
+// a clone of that; nothing when t has no zero-length component.
+func emptySliceVariants(t geom.T) []geom.T {
+	flat := append([]float64{}, t.FlatCoords()...)
+	var v geom.T
+	switch tt := t.(type) {
+	case *geom.Polygon:
+		if len(tt.Ends()) != 0 && len(flat) != 0 {
+			return nil
+		}
+		v = geom.NewPolygonFlat(tt.Layout(), flat, append([]int{}, tt.Ends()...))
+	case *geom.MultiLineString:
+		if len(tt.Ends()) != 0 && len(flat) != 0 {
+			return nil
+		}
+		v = geom.NewMultiLineStringFlat(tt.Layout(), flat, append([]int{}, tt.Ends()...))
+	case *geom.MultiPolygon:
+		some := len(flat) == 0 || len(tt.Endss()) == 0
+		endss := [][]int{}
+		for _, e := range tt.Endss() {
+			if len(e) == 0 {
+				some = true
+			}
+			endss = append(endss, append([]int{}, e...))
+		}
+		if !some {
+			return nil
+		}
+		v = geom.NewMultiPolygonFlat(tt.Layout(), flat, endss)
+	default:
+		return nil
+	}
+	v2 := v
+	switch tt := v.(type) {
+	case *geom.Polygon:
+		v2 = tt.Clone()
+	case *geom.MultiLineString:
+		v2 = tt.Clone()
+	case *geom.MultiPolygon:
+		v2 = tt.Clone()
+	}
+	return []geom.T{v, v2}
+}
